@@ -221,6 +221,15 @@ fn run_l<L: Language + 'static, N: Analysis<L> + Default + 'static>(c: &ProbeCas
                 return Err(format!("inserting the represented term {} ({kind}) changed the e-graph: {:?} -> {:?}", t.render(nm), fp1, fp2));
             }
         }
+        // the result omits every slot its class does not have (it has exactly the slots of its canonical form)
+        {
+            let f = eg.find_applied_id(&a);
+            let s1: BTreeSet<Slot> = a.slots().iter().copied().collect();
+            let s2: BTreeSet<Slot> = f.slots().iter().copied().collect();
+            if s1 != s2 {
+                return Err(format!("add({}) ({kind}) returned {:?}, whose slots differ from those of its canonical form {:?}", t.render(nm), a, f));
+            }
+        }
         // slots of the result are free names of the term
         let fv: BTreeSet<Slot> = t.fv().into_iter().map(|n| slot_of(n, nm)).collect();
         let asl: BTreeSet<Slot> = a.slots().iter().copied().collect();
